@@ -31,7 +31,7 @@ PROPS = {
              "messageRecords/messageSummaries bytes are decoded by the doc-derived Lean decoder and compared with the record, and "
              "compared byte-for-byte with the model encoder; in addition batches of 1..4 records go through the REAL publisher goroutine "
              "(startSocket, pulse port and summary port) and a ZMQ SUB socket must receive exactly one two-part message per record, in order, "
-             "equal to that record's header and payload. Non-trivial = every case (each decodes a full message); distinct by input line.",
+             "equal to that record's header and payload; and, because dastard builds record and summary messages in two goroutines at the same time, two goroutines call the two real builders concurrently (20000 calls each per case) and every result must equal what the builder returns alone. Non-trivial = every case (each decodes a full message); distinct by input line.",
         lean_files=["C14", "ComposeWire"],
         nontrivial=[],
         jobs=seeds(1, 4),
